@@ -15,7 +15,7 @@ Inductive cls :=
 
 Definition kind_eqb (a b : site_kind) : bool :=
   match a, b with
-  | SPanic, SPanic | SFatal, SFatal | SFatalNoTrace, SFatalNoTrace | SExit, SExit => true
+  | SPanic, SPanic | SFatal, SFatal | SFatalNoTrace, SFatalNoTrace | SExit, SExit | SIndexCall, SIndexCall => true
   | _, _ => false
   end.
 
